@@ -37,8 +37,15 @@ def main():
         scratch = a[a.index('--scratch') + 1]
     if '--tier' in a:
         tier = a[a.index('--tier') + 1]
+    part = None
+    if '--part' in a:
+        k, n = a[a.index('--part') + 1].split('/')
+        part = (int(k), int(n))
     d = os.path.join(VERIF, 'seeded')
-    for name in sorted(os.listdir(d)):
+    names = [x for x in sorted(os.listdir(d)) if os.path.isdir(os.path.join(d, x))]
+    for idx, name in enumerate(names):
+        if part and idx % part[1] != part[0]:
+            continue
         if only_missing and os.path.exists(os.path.join(d, name, 'detection.json')):
             continue
         print('=====', name, flush=True)
